@@ -8,7 +8,7 @@
 (* specification runs the same bytes (Charstring!Run) and must arrive at   *)
 (* the same verdict and the same command stream.                           *)
 (***************************************************************************)
-EXTENDS Charstring, TraceIO
+EXTENDS Charstring, Index, TraceIO
 
 TCharstring ==
   /\ IsEvent("charstring")
@@ -18,6 +18,14 @@ TCharstring ==
      /\ r.cmds = Ev.cmds
      /\ Bounded(r)
 
+\* an INDEX byte string and what Index::new / Index::get(0 .. count + 1) answered
+TIndex ==
+  /\ IsEvent("index")
+  /\ LET a == AnswersFor(Ev.bytes) IN
+     /\ a.ok = Ev.answers.ok
+     /\ a.ok => /\ Len(a.gets) = Len(Ev.answers.gets)
+                /\ \A i \in DOMAIN a.gets : a.gets[i].err = Ev.answers.gets[i].err /\ a.gets[i].bytes = Ev.answers.gets[i].bytes
+
 TInit == l = 1
-TraceSpec == TInit /\ [][TCharstring]_l
+TraceSpec == TInit /\ [][TCharstring \/ TIndex]_l
 =============================================================================
